@@ -62,7 +62,7 @@ def _gate(item):
         return getattr(G, g)
     if g == "SWAP":
         return G.SWAP
-    if g in ("CY", "CH", "CS"):
+    if g in ("CY", "CH", "CS", "CT"):
         return G.Controlled(getattr(G, g[1]))
     if g in ("Rx", "Rz", "CRz"):
         return getattr(G, g)(item["phase"])
@@ -275,7 +275,7 @@ def gen_circuit_spec(rng, cfg):
         elif k == "g2":
             spec.append({"g": rng.choice(["CX", "CZ"]), "at": rng.choice(adjq)})
         elif k == "cgate_named":
-            g, at = rng.choice(["CY", "CH"]), rng.choice(adjq)
+            g, at = rng.choice(["CY", "CH", "CY", "CH", "CS", "CT"]), rng.choice(adjq)      # CT: no tket name, refused
             if rng.random() < 0.5:      # a sign on the controlled gate is a phase on its control
                 spec += [{"g": "H", "at": at}, {"g": g, "at": at}, {"g": "H", "at": at}]
             else:
